@@ -96,6 +96,17 @@ def xcallBuf {σ : Type} (w : XWorld σ) (name : String) (args : List (BitVec 64
 /-- memory holding a byte string (zeros beyond it) -/
 def memOfBytes (l : List (BitVec 8)) : Nat → BitVec 8 := fun a => l.getD a 0#8
 
+/-- objects of the translated function itself whose address is taken live above this address, each in a page of its own -/
+def STACK : Nat := 2 ^ 40
+
+/-- `memcpy(dst, src, n)` (the ranges do not overlap: guarded at the call) -/
+def memcpy (mem : Nat → BitVec 8) (dst src n : Nat) : Nat → BitVec 8 :=
+  fun a => if dst ≤ a ∧ a < dst + n then mem (src + (a - dst)) else mem a
+
+/-- a callee that is not translated wrote `n` bytes at `dst`: what it wrote is the world's answer -/
+def memFill (mem : Nat → BitVec 8) (dst n : Nat) (bytes : List (BitVec 8)) : Nat → BitVec 8 :=
+  fun a => if dst ≤ a ∧ a < dst + n then bytes.getD (a - dst) 0#8 else mem a
+
 /-- fuel of translated loops: more iterations than any counter of the translated code can count -/
 def FUEL : Nat := 2 ^ 64 + 1
 
